@@ -2,7 +2,8 @@
 import json, os
 import vlib, gen_config as G
 
-THEOREMS = [("Properties.C01", "C01_holds"), ("AsFound.C01", "C01_as_found_insert_refuted"), ("AsFound.C01", "C01_as_found_prefix_refuted")]
+THEOREMS = [("Properties.C01", "C01_holds"), ("AsFound.C01", "C01_as_found_insert_refuted"), ("AsFound.C01", "C01_as_found_prefix_refuted"),
+            ("Harness.OracleProof", "spec_C01_summary_iff"), ("Harness.OracleProof", "spec_C01_breakdown_iff")]
 CORRESPONDENCE = "analyze (verif::analyze hook, CLI analyze) == Model.Index.summary / breakdown"
 LEVEL_NOTE = ("Coq theorem C01_holds (unbounded in targets, nesting depth, changes, batch size): for every well-formed configuration and "
               "normalised change paths the model's summary lies between the two readings of the documented don't-care (and equals the strict one), "
@@ -10,7 +11,7 @@ LEVEL_NOTE = ("Coq theorem C01_holds (unbounded in targets, nesting depth, chang
               "order, multiplicity and batch size. Tied to src/app/analyze.rs + Index::new by the verif::analyze hook on generated configurations "
               "and 0..400 changes, and by the CLI on real git repositories.")
 TRUSTED = ["Coq 8.16.1 kernel; no axioms (closed under the global context)",
-           "extraction (ExtrOcamlBasic) + ocaml/vmodel.ml; Harness/Glue.v check_C01 (decoders, spec_C01 oracle built from spec_changed)",
+           "extraction (ExtrOcamlBasic) + ocaml/vmodel.ml; Harness/Glue.v check_C01 (decoders; the oracle spec_C01 is proved to be exactly the statement's clauses about one answer: Harness/OracleProof.v spec_C01_summary_iff / spec_C01_breakdown_iff)",
            "trie-rs common_prefix_search modelled as stored non-empty byte prefixes; rayon par_chunks/reduce modelled as chunk-wise union",
            "hooks src/verif.rs; HashSet modelled as a sorted duplicate-free list",
            "modelled, not verified: the Rust source itself"]
